@@ -14,6 +14,8 @@ UNITS = {
                     about="Exec builder methods and terminators, stream adapters and their drop glue, Pipeline (composition, popen loop, join, capture, communicate, stream_*) against the builder world (log of started stages)"),
     "exec": dict(template="units/exec.vt.rs", rlimit=100, tops=["PrepExec::exec", "prep_exec"],
                  about="posix::prep_exec / PrepExec::new / exec / assemble_exe: which program paths are tried, in which order, with what buffer capacity"),
+    "splitpath": dict(template="units/splitpath.vt.rs", rlimit=50, tops=["split_path"],
+                      about="the tokenizer closure of posix::split_path, verified as the function it is, against the recursive definition of PATH segments"),
     "quote": dict(template="units/quote.vt.rs", rlimit=50, tops=["Exec::display_escape"],
                   about="Exec::display_escape / nice_char: the result is one shell word for the string"),
     "pstate": dict(template="units/pstate.vt.rs", rlimit=50, tops=["os_wait_timeout", "waitpid", "send_signal", "drop"],
@@ -30,7 +32,7 @@ PROPS = {
     "C06": dict(units=["spawn", "exec", "builder"], kani=["w_fork_ids", "w_os_to_cstring_b4"], level="proof",
                 natives=[("units/native/format_env.nt.rs", "9331 environment lists: all lists of 0..5 entries over the names {A,B,CC} and the values {empty, x}")]),
     "C07": dict(units=["spawn", "exec"], kani=["w_pipe", "w_fork_ids"], level="proof"),
-    "C15": dict(units=["exec"], kani=["b_split_path_b3"], level="proof"),
+    "C15": dict(units=["exec", "splitpath"], kani=["b_split_path_b3"], level="proof"),
     "C17": dict(units=["spawn", "exec"], kani=[], level="proof"),
     "C20": dict(units=[], kani=[], level="other",
                 explanation="BOUNDED stand-in, not a proof: assemble_cmdline and append_quoted live in the cfg(windows) module and are extracted mechanically into a native program that round-trips argument vectors through an independent implementation of the Microsoft parsing rules.",
@@ -72,13 +74,17 @@ SCENARIOS = [
 # --------------------------------------------------------------------------------------------- assumptions
 # free-text trusted base per unit (in addition to the mechanically listed external_body/axiom items)
 UNIT_TRUST = {
+    "splitpath": [
+        "R9': split_path returns std::iter::from_fn(closure); the closure body is verified as a function whose captured `mut path` is the parameter `path: &mut &OsStr` (assignments `path = e` become `*path = e`); that from_fn calls the closure once per next() is std",
+        "R6: bytes.iter().position(|&c| c == b':') = find_colon (index of the first colon); OsStr::from_bytes / OsStr::new(\"\") by their std contracts",
+    ],
     "quote": [
         "quoting world (units/models/quotew.rs): shell_word_for (a non-empty run of characters from [-_.,/0-9A-Za-z], or the single-quoted form with embedded quotes spliced as '\\'') is the oracle for 'a POSIX shell reads this word as s'; it is validated against the real /bin/sh only by the bounded scenario c19_shell_roundtrip",
         "R6: format!(\"'{}'\", s.replace(...)) = fmt_squote_replaced; s.chars().all(f) = str_all; str::is_empty, char::is_ascii_alphanumeric by their std contracts; Cow<str> by a two-variant shim",
         "to_cmdline_lossy and the Debug impls (joining with spaces and ' | ', environment prefix) are covered only by the bounded scenario, not by a contract",
     ],
     "exec": [
-        "exec world (units/models/execw.rs): segments(PATH) = the maximal non-empty colon-free runs (uninterpreted; split_path against it: bounded Kani harness b_split_path_b3, PATH of 3 bytes); "
+        "exec world (units/models/execw.rs): segments(PATH) = the maximal non-empty colon-free runs (units/models/segments.rs; the tokenizer closure of split_path is proved against it in unit splitpath, and a bounded Kani harness runs the real iterator on 3-byte PATHs); "
         "the iterator returned by split_path is modelled by SplitPath (R6: `for dir in split_path(p)` desugared to loop/match next())",
         "R6: the Vec<u8> buffer prealloc_exe is represented by Buf with an explicit ghost capacity (std: a Vec does not reallocate while len <= capacity); mem::take = take_buf; "
         "b\"/\" = slash(); max_segment_len = split_path(p).map(OsStr::len).max().unwrap_or(0); has_slash / nonempty_path_var = the iterator / Option adaptor expressions of prep_exec",
